@@ -145,7 +145,10 @@ def violated_keywords(schema, value, *, dialect, root, leaf_schemas=None):
 def pattern_anchoring(pattern: str) -> str:
     a = pattern.startswith("^") or pattern.startswith("\\A")
     b = (pattern.endswith("$") and not pattern.endswith("\\$")) or pattern.endswith("\\Z")
-    return "both" if a and b else "start" if a else "end" if b else "none"
+    base = "both" if a and b else "start" if a else "end" if b else "none"
+    # a word boundary at an end is not an anchor, but the pattern rewriting treats it like one: keep it visible
+    wb = ("b" if pattern.startswith(("\\b", "\\B")) else "") + ("B" if pattern.endswith(("\\b", "\\B")) and not pattern.endswith(("\\\\b", "\\\\B")) else "")
+    return base + (":word-boundary" if wb else "")
 
 
 def find_pattern_schema(schema, root, depth=0):
@@ -241,7 +244,7 @@ class DrawTimeout(BaseException):
 DRAW_TIMEOUT_S = 25
 
 
-def draw_cases(operation, mode, cfg, n, seed_value):
+def draw_cases(operation, mode, cfg, n, seed_value, explicit=None, suppress_all=False):
     """n draws through a nested, seeded @given. Returns (cases, outcome)."""
     import signal
 
@@ -252,8 +255,8 @@ def draw_cases(operation, mode, cfg, n, seed_value):
     got = []
 
     @seed(seed_value)
-    @settings(max_examples=n, database=None, deadline=None, derandomize=False, phases=[Phase.generate], suppress_health_check=[HealthCheck.too_slow, HealthCheck.data_too_large, HealthCheck.nested_given, HealthCheck.differing_executors], verbosity=hypothesis.Verbosity.quiet)
-    @given(operation.as_strategy(generation_mode=mode, generation_config=cfg))
+    @settings(max_examples=n, database=None, deadline=None, derandomize=False, phases=[Phase.generate], suppress_health_check=list(HealthCheck) if suppress_all else [HealthCheck.too_slow, HealthCheck.data_too_large, HealthCheck.nested_given, HealthCheck.differing_executors], verbosity=hypothesis.Verbosity.quiet)
+    @given(operation.as_strategy(generation_mode=mode, generation_config=cfg, **(explicit or {})))
     def inner(case):
         got.append(case)
 
